@@ -285,6 +285,64 @@ def last_value_only(g, bid):
     return out
 
 
+FIRST_WINS = ("get_or_insert", "get_or_insert_with", "get_or_init", "get_or_insert_default")
+
+
+def _loop_variant(b, blocks, local):
+    """the local is computed, inside the given blocks, from what the loop's cursor hands out (`next`)."""
+    seen, st = set(), [local]
+    while st:
+        l = st.pop()
+        if l in seen:
+            continue
+        seen.add(l)
+        for i in blocks:
+            blk = b.blocks[i]
+            for stt in blk["stmts"]:
+                if stt["dst"]["l"] != l:
+                    continue
+                rv = stt["rv"]
+                if rv.get("pl"):
+                    st.append(rv["pl"]["l"])
+                st.extend(o["pl"]["l"] for o in rv.get("ops", []) if o["k"] in ("copy", "move"))
+            t = blk["term"]
+            if t["k"] == "call" and t["dst"]["l"] == l:
+                if (t.get("callee") or "").rsplit("::", 1)[-1] in ("next", "next_back"):
+                    return True
+                st.extend(a["pl"]["l"] for a in t["args"] if a["k"] in ("copy", "move"))
+    return False
+
+
+def first_value_only(g):
+    """single-slot first-wins stores (`Option::get_or_insert(x)`, `get_or_insert_with(|| x)`, `OnceCell::get_or_init`)
+    that sit in a loop and are offered a value that differs from iteration to iteration: it is computed, inside the
+    loop, from what the loop's cursor hands out. A keyed `entry(k).or_insert(v)` is a group-by, not a single slot,
+    and a slot filled lazily with a loop-invariant value (a cache) keeps nothing back: neither is meant."""
+    from .meet import _natural_loops
+    f = g.facts
+    out = []
+    for bid in sorted(g.scope):
+        b = f.bodies[bid]
+        loops = None
+        for i, t in b.calls():
+            c = t.get("callee") or ""
+            nm = c.rsplit("::", 1)[-1]
+            if nm not in FIRST_WINS or ("option::Option" not in c and "Cell" not in c and "Lock" not in c):
+                continue
+            if len(t["args"]) < 2 or t["args"][1]["k"] not in ("copy", "move"):
+                continue
+            if loops is None:
+                loops = _natural_loops(b)
+            inside = [blocks for (h, blocks) in loops if i in blocks]
+            if not inside:
+                continue
+            blocks = max(inside, key=len)
+            if _loop_variant(b, blocks, t["args"][1]["pl"]["l"]):
+                loc = b.locals[t["args"][0]["pl"]["l"]] if t["args"][0]["k"] in ("copy", "move") else {}
+                out.append((bid, i, t, loc.get("name") or nm))
+    return out
+
+
 def run_last_value(rep, ctx, anchor, rule="R1L"):
     """one instance per verifier anchor: no per-iteration value survives only as the last one."""
     g = ctx.graph(anchor)
@@ -298,6 +356,12 @@ def run_last_value(rep, ctx, anchor, rule="R1L"):
         for local, d, u in last_value_only(g, bid):
             nm = b.locals[local].get("name") or "_%d" % local
             bad.append((nm, bid, local, d, u))
+    first = first_value_only(g)
+    for (bid, i, t, nm) in first:
+        rep.add(rule, "%s:first-value:%s@%s" % (anchor.key, nm, short(bid)), False,
+                "the single slot filled by `%s` at %s sits in a loop and is offered a value that differs from iteration to "
+                "iteration: the first element's value is kept and used for every later element" % (
+                    (t.get("callee") or "?").rsplit("::", 1)[-1], t["span"]), t["span"])
     if not bad:
         rep.add(rule, "%s:no-last-value-only" % anchor.key, True,
                 "no value computed per loop iteration is carried out of the loop unused (%d bodies with loops examined)" % loops,
